@@ -117,7 +117,27 @@ def shards(tier):
     out = [{'formulas': [F.to_json(f) for f in fs[i:i + per]]} for i in range(0, len(fs), per)]
     uf = unit_formulas()
     out += [{'formulas': [], 'units': [(F.to_json(f), st) for f, st in uf[i:i + 4]]} for i in range(0, len(uf), 4)]
+    deep = [f for f in F.deep_formulas(DENSE_U, DENSE_B) if not F.has_op(f, ('prev', 'next', 'rise'))]
+    deep = deep[::5] if tier == 'quick' else deep
+    out += [{'formulas': [F.to_json(f) for f in deep[i:i + 2]], 'deep': True} for i in range(0, len(deep), 2)]
     return out
+
+
+def deep_signal_sets(nvars, tier):
+    """longer signals (7 samples, domain [0,6]) for formulas with bounds up to 7"""
+    import itertools
+    tsets = ((0.0, 1.0, 2.0, 3.0, 4.0, 5.0, 6.0), (0.0, 0.5, 1.5, 2.0, 3.5, 4.0, 6.0))
+    out = []
+    if nvars == 1:
+        for ts in tsets:
+            for vals in itertools.product(F.V2, repeat=len(ts)):
+                out.append({'x': tuple(zip(ts, vals))})
+        return out[::5] if tier == 'quick' else out
+    ty = (0.0, 1.5, 3.0, 6.0)
+    for vx in itertools.product(F.V2, repeat=7):
+        for vy in itertools.product(F.V2, repeat=4):
+            out.append({'x': tuple(zip(tsets[0], vx)), 'y': tuple(zip(ty, vy))})
+    return out[::24] if tier == 'quick' else out[::2]
 
 
 def reference(f, signals, idx=0, hook=None):
@@ -190,7 +210,7 @@ def run_shard(shard, tier, res):
             continue
         key = (len(vs), tier)
         if key not in cache:
-            cache[key] = signal_sets(len(vs), tier)
+            cache[key] = deep_signal_sets(len(vs), tier) if shard.get('deep') else signal_sets(len(vs), tier)
         for si, sig in enumerate(cache[key]):
             sig = {v: sig[v if v in sig else 'x'] for v in vs} if vs != ['y'] else {'y': sig['x']}
             case = {'formula': fj, 'spec': text, 'vars': vs, 'signals': {v: [list(p) for p in s] for v, s in sig.items()}}
